@@ -109,7 +109,7 @@ def specs(tier: str):
                     if not gast.well_formed(rules):
                         raise common.HarnessError("family produced an ill-formed grammar")
                     out.append(engine.Spec(rules, [g[0] for g in grp], ins, "zero", f"trivia({pack},{tv},n<={n},L={L})"))
-    return out + families.extra_specs("zero", tier) + families.skip_specs("zero", tier, full=True) + backtrack_specs(tier) + families.explicit_trivia_specs("zero", tier) + composed_specs(tier) + nested_trivia_specs(tier)
+    return out + families.extra_specs("zero", tier) + families.skip_specs("zero", tier, full=True) + backtrack_specs(tier) + families.explicit_trivia_specs("zero", tier) + composed_specs(tier) + nested_trivia_specs(tier) + families.recursive_specs("zero", tier, trivs=("ws",)) + families.recursive_specs("zero", tier, stack=True, trivs=("ws",))
 
 
 def nested_trivia_specs(tier: str):
@@ -169,7 +169,7 @@ def run(tier: str) -> int:
         rule="start rule bodies: every expression with <= n nodes over {\"a\",\"b\",n,at,cp,na,sl} (helper packs P1-P5 give @ $ ! _ rules with sequences, repetitions, optionals, predicates and modifier nestings of depth 3-4), "
              "all unary operators and ~ |, x start-rule modifier x trivia configuration (none / WHITESPACE silent / non-silent / COMMENT two-element / both / choice body / one-char comment / both non-silent) "
              "x every input over {a,b}+trivia symbols up to length L, in all four modes against the reference model; start rules are batched 40 per grammar and failing cases are re-run on the isolated rule; "
-             "a case is non-trivial when the reference run backtracked (incl. giving back trivia) or returned pairs" + families.EXTRA_RULE_TEXT + families.SKIP_RULE_TEXT + families.EXPLICIT_RULE_TEXT + "; plus nested trivia: WHITESPACE = _{ \" \" | g } with g = !{ \"(\" ~ \")\" }, and a non-silent COMMENT = { \"(\" ~ w ~ \")\" } with w = !{ \"a\" ~ \"a\"* }, under six bodies x normal/@/! on every input over {a,b,blank,(,)} up to length 5"
+             "a case is non-trivial when the reference run backtracked (incl. giving back trivia) or returned pairs" + families.EXTRA_RULE_TEXT + families.SKIP_RULE_TEXT + families.EXPLICIT_RULE_TEXT + families.RECURSIVE_RULE_TEXT + " (under implicit WHITESPACE, with rule references and with stack operations)" + "; plus nested trivia: WHITESPACE = _{ \" \" | g } with g = !{ \"(\" ~ \")\" }, and a non-silent COMMENT = { \"(\" ~ w ~ \")\" } with w = !{ \"a\" ~ \"a\"* }, under six bodies x normal/@/! on every input over {a,b,blank,(,)} up to length 5"
              "; plus composed contexts: outer(inner(terminal)) for every terminal of the full set (literals, built-ins, stack operations, tagged terms) and every pair of 13 contexts (thorough: 30), under WHITESPACE and under a one-character COMMENT"
              "; plus atomic-backtrack: 15 helper rules (modifier normal/_/@/$/! x three bodies) called inside an abandoned alternative, an abandoned optional, & , !, an abandoned repetition iteration "
              "and twice in an abandoned sequence, then called again and followed by \"b\" ~ \"b\", from normal/@/$/! start rules, with silent and non-silent WHITESPACE" + " (zero counts are UNSPEC for the model: judged on 'no foreign exception' only)",
